@@ -279,6 +279,8 @@ pub fn call(rt: &tokio::runtime::Runtime, h: &Harness, keys: &[String], cred: &C
     };
     let msgs = encode(r);
     let method = r.method();
+    // searches wait for tokio's blocking pool: keep that wait from ticking the simulated clock
+    let _fz = crate::simlibc::FreezeClock::new();
     let raw = rt.block_on(async { h.call(&method, key.as_deref(), bearer, msgs).await });
     decode(r, &raw)
 }
